@@ -118,7 +118,7 @@ func (fi *c08Injector) firedOps() []stor.Op {
 }
 
 func c08Options(spec *crSpec) *opt.Options {
-	o := spec.Opts.Options()
+	o := spec.options()
 	o.DisableCompactionBackoff = true // a burst of failures must not be mistaken for a hang
 	return o
 }
